@@ -47,10 +47,17 @@
 namespace bloc
 {
 
+#ifdef BLOC_VERIF
+std::atomic<long> Context::verif_live(0);
+#endif
+
 Context::Context()
 : _root(this)
 , _ts_init(std::chrono::system_clock::now())
 {
+#ifdef BLOC_VERIF
+  ++verif_live;
+#endif
   int d = ::dup(STDOUT_FILENO);
   if (d >= 0)
   {
@@ -64,6 +71,9 @@ Context::Context(int fd_out, int fd_err)
 : _root(this)
 , _ts_init(std::chrono::system_clock::now())
 {
+#ifdef BLOC_VERIF
+  ++verif_live;
+#endif
   int d = ::dup(fd_out);
   if (d >= 0)
     _sout = ::fdopen(d, "w");
@@ -80,6 +90,9 @@ Context::Context(int fd_out, int fd_err)
 
 Context::~Context()
 {
+#ifdef BLOC_VERIF
+  --verif_live;
+#endif
   if (_returned)
     delete _returned;
   _returned = nullptr;
@@ -521,6 +534,9 @@ Context::Context(const Context& ctx)
 , _serr(ctx._serr)
 , _flags(ctx._flags)
 {
+#ifdef BLOC_VERIF
+  ++verif_live;
+#endif
 }
 
 /**
